@@ -150,6 +150,7 @@ let handle kind c =
     let kills = ref 0 and panicked = ref false in
     let quiet_local = ref None in
     let flagged = Hashtbl.create 8 in
+    let void_ready = Hashtbl.create 4 in
     let once cls d f = if not (Hashtbl.mem flagged (cls, d)) then (Hashtbl.replace flagged (cls, d) (); f cls d) in
     let witness_ever w =
       Hashtbl.mem ever_local ("local." ^ w ^ ".json") || Hashtbl.mem ever_local (w ^ ".json")
@@ -164,7 +165,11 @@ let handle kind c =
           if w <> wn then once "wrong_report" (name ^ " has Week " ^ w) prop07
           else if uniform w then begin
             let fw = week_files w in
-            if ps <> sums_of fw then begin
+            let obs = List.map (fun (p, cs) -> (n_of_int p, List.map (fun (k, v) -> (n_of_int k, z_of_int v)) cs)) ps in
+            let files_of xs = List.map (fun x -> (bytes_of_string x.c_name, x.c_cf)) xs in
+            (* week_reports_ok (Model/Uploader.v): the program entries = the grouping of the week's
+               files by full identity, each value the sum over exactly that group *)
+            if not (week_reports_ok obs (files_of fw)) then begin
               let subs = if List.length fw <= 10 then subsets fw else [] in
               if List.exists (fun s -> s <> [] && sums_of s = ps) subs && mode_on && nth >= 3
                  && (scen = "race3" || scen = "conc3") then
@@ -275,13 +280,20 @@ let handle kind c =
             | Some (r', _) when r' = r -> ()
             | _ -> once "report_changed" (Printf.sprintf "step %d: %s changed after it was written" i n) prop07) !prev_local;
       List.iter (fun (n, (_, d)) -> check_report n d) loc;
+      (* an initial ready report that is gone while the upload directory has no marker for it *)
+      List.iter (fun n ->
+          if is_ready_s n && not (List.mem_assoc n loc) && not (List.mem_assoc n !prev_up) then
+            Hashtbl.replace void_ready (String.sub n 0 (String.length n - 5)) ()) init_local_names;
       (* C07: no report file is created for a week that had a report before the runs *)
       List.iter (fun (n, _) ->
           if has_suffix n ".json" && not (List.mem_assoc n !prev_local) && not (List.mem n init_local_names) then begin
             let w = if has_prefix n "local." then String.sub n 6 (String.length n - 11)
               else String.sub n 0 (String.length n - 5) in
+            (* local reports and markers are permanent; a ready report W.json of before the runs is a
+               witness until it is removed without a marker (a 4xx answer removes it without a trace:
+               a later report for W is then the first one the server can accept) *)
             if List.mem (w ^ ".json") init_up_names || List.mem ("local." ^ w ^ ".json") init_local_names
-               || List.mem (w ^ ".json") init_local_names then
+               || (List.mem (w ^ ".json") init_local_names && not (Hashtbl.mem void_ready w)) then
               once "second_report" (Printf.sprintf "step %d: %s created although week %s had a report before the runs" i n w) prop07
           end) loc;
       (* C08 *)
